@@ -69,8 +69,11 @@ Section Dec.
     forallb2 valid_p (pts w p t) ds1 = true ->
     match sdec cdec w t (ds1 ++ rest) with
     | Ok (v, r) => r = rest /\ shape cdec w t v /\ rejected v
-    | Err e => cdec_fails e
+    | Err e => cdec_fails e /\ forallb finite_p (pts w p t) = false
     end.
+
+  Lemma forallb_false_in : forall A (f : A -> bool) l x, In x l -> f x = false -> forallb f l = false.
+  Proof. induction l; simpl; intros x Hin Hf; [contradiction|]. destruct Hin as [->|Hin]; [rewrite Hf; auto | rewrite (IHl _ Hin Hf); apply andb_false_r]. Qed.
 
   Lemma Forall_flat_map : forall A B (P : B -> Prop) (f : A -> list B) l,
     Forall (fun x => Forall P (f x)) l -> Forall P (flat_map f l).
@@ -80,17 +83,17 @@ Section Dec.
     forallb2 valid_p (flat_mapi (fun i x => pts w (pf i) x) n ts) ds1 = true ->
     match trav_list (sdec cdec w) ts (ds1 ++ rest) with
     | Ok (vs, r) => r = rest /\ Forall2 (shape cdec w) ts vs /\ Forall rejected vs
-    | Err e => cdec_fails e end.
+    | Err e => cdec_fails e /\ forallb finite_p (flat_mapi (fun i x => pts w (pf i) x) n ts) = false end.
   Proof.
     induction 1 as [|x ts Hx _ IH]; intros pf n ds1 rest Hv.
     - apply forallb2_nil_l in Hv; subst; simpl; auto.
     - rewrite flat_mapi_cons in Hv. apply forallb2_app_l in Hv as (d1 & d2 & -> & H1 & H2).
-      rewrite <- app_assoc, trav_list_cons.
+      rewrite <- app_assoc, trav_list_cons, flat_mapi_cons, forallb_app.
       specialize (Hx (pf n) d1 (d2 ++ rest) H1).
-      destruct (sdec cdec w x (d1 ++ d2 ++ rest)) as [[v r]|e]; auto.
+      destruct (sdec cdec w x (d1 ++ d2 ++ rest)) as [[v r]|e]; [|destruct Hx as [Hx1 Hx2]; rewrite Hx2; auto].
       destruct Hx as (-> & Hs & Hr).
       specialize (IH pf (S n) d2 rest H2).
-      destruct (trav_list (sdec cdec w) ts (d2 ++ rest)) as [[vs r]|e]; auto.
+      destruct (trav_list (sdec cdec w) ts (d2 ++ rest)) as [[vs r]|e]; [|destruct IH as [I1 I2]; rewrite I2, andb_false_r; auto].
       destruct IH as (-> & Hss & Hrs). auto.
   Qed.
 
@@ -99,17 +102,17 @@ Section Dec.
     match trav_kvs (sdec cdec w) kvs (ds1 ++ rest) with
     | Ok (kvs', r) => r = rest /\ Forall2 (fun a b => fst a = fst b /\ shape cdec w (snd a) (snd b)) kvs kvs' /\
                       Forall (fun kv => rejected (snd kv)) kvs'
-    | Err e => cdec_fails e end.
+    | Err e => cdec_fails e /\ forallb finite_p (flat_map (fun kv => pts w (pf (fst kv)) (snd kv)) kvs) = false end.
   Proof.
     induction 1 as [|[k x] kvs Hx _ IH]; intros pf ds1 rest Hv.
     - apply forallb2_nil_l in Hv; subst; simpl; auto.
     - simpl in Hv. apply forallb2_app_l in Hv as (d1 & d2 & -> & H1 & H2).
-      rewrite <- app_assoc, trav_kvs_cons. simpl in Hx.
+      rewrite <- app_assoc, trav_kvs_cons. simpl flat_map. rewrite forallb_app. simpl in Hx.
       specialize (Hx (pf k) d1 (d2 ++ rest) H1).
-      destruct (sdec cdec w x (d1 ++ d2 ++ rest)) as [[v r]|e]; auto.
+      destruct (sdec cdec w x (d1 ++ d2 ++ rest)) as [[v r]|e]; [|destruct Hx as [Hx1 Hx2]; simpl; rewrite Hx2; auto].
       destruct Hx as (-> & Hs & Hr).
       specialize (IH pf d2 rest H2).
-      destruct (trav_kvs (sdec cdec w) kvs (d2 ++ rest)) as [[vs r]|e]; auto.
+      destruct (trav_kvs (sdec cdec w) kvs (d2 ++ rest)) as [[vs r]|e]; [|destruct IH as [I1 I2]; rewrite I2, andb_false_r; auto].
       destruct IH as (-> & Hss & Hrs). repeat split; auto.
   Qed.
 
@@ -117,7 +120,7 @@ Section Dec.
     with_nth (fun s => valid s (snd cs)) false (map (fun c => Space (pts w [] c)) cands) (fst cs) = true ->
     match choice_of cands cs with
     | Ok v => (exists cand, In cand cands /\ shape cdec w cand v) /\ rejected v
-    | Err e => cdec_fails e end.
+    | Err e => cdec_fails e /\ forallb finite (map (fun c => Space (pts w [] c)) cands) = false end.
   Proof.
     intros cands HF [c sub] Hv; simpl in Hv. unfold choice_of; simpl.
     destruct sub as [sds].
@@ -126,15 +129,17 @@ Section Dec.
     simpl in Hv.
     pose proof (nth_error_Forall _ _ _ _ _ HF E) as G.
     specialize (G [] sds [] Hv). rewrite app_nil_r in G.
-    destruct (sdec cdec w cand sds) as [[v r]|e]; simpl; auto.
-    destruct G as (-> & Hs & Hr). split; auto. exists cand; split; auto. eapply nth_error_In; eauto.
+    destruct (sdec cdec w cand sds) as [[v r]|e]; simpl.
+    - destruct G as (-> & Hs & Hr). simpl. split; auto. exists cand; split; auto. eapply nth_error_In; eauto.
+    - destruct G as [G1 G2]. split; auto.
+      apply (forallb_false_in _ _ _ (Space (pts w [] cand))); [apply (in_map (fun c0 => Space (pts w [] c0))); eapply nth_error_In; eauto | exact G2].
   Qed.
 
   Lemma good_choices : forall cands, Forall good cands -> forall cs,
     forallb (fun cs0 => with_nth (fun s => valid s (snd cs0)) false (map (fun c => Space (pts w [] c)) cands) (fst cs0)) cs = true ->
     match map_res (choice_of cands) cs with
     | Ok vs => length vs = length cs /\ Forall (fun v => exists cand, In cand cands /\ shape cdec w cand v) vs /\ Forall rejected vs
-    | Err e => cdec_fails e end.
+    | Err e => cdec_fails e /\ forallb finite (map (fun c => Space (pts w [] c)) cands) = false end.
   Proof.
     intros cands HF. induction cs as [|c cs IH]; intros Hv; simpl in Hv.
     - simpl; auto.
@@ -162,17 +167,17 @@ Section Dec.
     - (* leaf *) destruct ds1; [|discriminate Hv]. simpl. repeat split; [constructor | unfold rejected; simpl; constructor].
     - (* dict *) simpl in Hv. rewrite sdec_dict.
       pose proof (good_kvs kvs H (fun k => p ++ [KName k]) ds1 rest Hv) as G.
-      destruct (trav_kvs (sdec cdec w) kvs (ds1 ++ rest)) as [[kvs' r]|e]; auto.
+      destruct (trav_kvs (sdec cdec w) kvs (ds1 ++ rest)) as [[kvs' r]|e]; [|exact G].
       destruct G as (-> & Hs & Hr). repeat split; [constructor; auto|].
       unfold rejected; simpl. apply Forall_flat_map. exact Hr.
     - (* object *) simpl in Hv. rewrite sdec_obj.
       pose proof (good_kvs kvs H (fun k => p ++ [KName k]) ds1 rest Hv) as G.
-      destruct (trav_kvs (sdec cdec w) kvs (ds1 ++ rest)) as [[kvs' r]|e]; auto.
+      destruct (trav_kvs (sdec cdec w) kvs (ds1 ++ rest)) as [[kvs' r]|e]; [|exact G].
       destruct G as (-> & Hs & Hr). repeat split; [constructor; auto|].
       unfold rejected; simpl. apply Forall_flat_map. exact Hr.
     - (* list *) simpl in Hv. rewrite sdec_list.
       pose proof (good_list ts H (fun i => p ++ [KIdx i]) 0 ds1 rest Hv) as G.
-      destruct (trav_list (sdec cdec w) ts (ds1 ++ rest)) as [[ts' r]|e]; auto.
+      destruct (trav_list (sdec cdec w) ts (ds1 ++ rest)) as [[ts' r]|e]; [|exact G].
       destruct G as (-> & Hs & Hr). repeat split; [constructor; auto|].
       unfold rejected; simpl. apply Forall_flat_map. exact Hr.
     - (* oneof *) rewrite sdec_oneof. simpl in Hv. destruct (w (TOneOf cands a)) eqn:W.
@@ -183,10 +188,10 @@ Section Dec.
         destruct cs as [|c [|c' cs]]; simpl in Hlen; try discriminate.
         simpl in Hall. rewrite andb_true_r in Hall. simpl.
         pose proof (good_choice cands H c Hall) as G.
-        destruct (choice_of cands c) as [v|e]; auto. destruct G as [(cand & Hin & Hs) Hr].
+        destruct (choice_of cands c) as [v|e]; [|destruct G as [G1 G2]; split; auto; simpl; rewrite W; simpl; rewrite G2; reflexivity]. destruct G as [(cand & Hin & Hs) Hr].
         repeat split; auto. eapply shape_oneof; eauto.
       + pose proof (good_list cands H (fun i => p ++ [KName s_candidates; KIdx i]) 0 ds1 rest Hv) as G.
-        destruct (trav_list (sdec cdec w) cands (ds1 ++ rest)) as [[cands' r]|e]; auto.
+        destruct (trav_list (sdec cdec w) cands (ds1 ++ rest)) as [[cands' r]|e]; [|simpl; rewrite W; exact G].
         destruct G as (-> & Hs & Hr). repeat split; [apply shape_oneof_out; auto|].
         unfold rejected; simpl. constructor.
         * rewrite <- W. apply Hsh. apply sh_oneof_len. symmetry. eapply Forall2_length'; eauto.
@@ -198,12 +203,12 @@ Section Dec.
         apply andb_true_iff in Hx as [Hx Hall]. apply andb_true_iff in Hx as [Hlen Hc].
         simpl. rewrite Hlen, Hc. simpl.
         pose proof (good_choices cands H cs Hall) as G.
-        destruct (map_res (choice_of cands) cs) as [vs|e]; auto. destruct G as (Hl & Hs & Hr).
+        destruct (map_res (choice_of cands) cs) as [vs|e]; [|destruct G as [G1 G2]; split; auto; simpl; rewrite W; simpl; rewrite G2; reflexivity]. destruct G as (Hl & Hs & Hr).
         repeat split; auto.
         * apply shape_manyof; auto. apply Nat.eqb_eq in Hlen. congruence.
         * unfold rejected; simpl. apply Forall_flat_map. exact Hr.
       + pose proof (good_list cands H (fun i => p ++ [KName s_candidates; KIdx i]) 0 ds1 rest Hv) as G.
-        destruct (trav_list (sdec cdec w) cands (ds1 ++ rest)) as [[cands' r]|e]; auto.
+        destruct (trav_list (sdec cdec w) cands (ds1 ++ rest)) as [[cands' r]|e]; [|simpl; rewrite W; exact G].
         destruct G as (-> & Hs & Hr). repeat split; [apply shape_manyof_out; auto|].
         unfold rejected; simpl. constructor.
         * rewrite <- W. apply Hsh. apply sh_manyof_len. symmetry. eapply Forall2_length'; eauto.
@@ -219,7 +224,7 @@ Section Dec.
       + destruct ds1 as [|x ds1]; simpl in Hv; try discriminate.
         apply andb_true_iff in Hv as [Hx Hn]. destruct ds1; [|discriminate Hn].
         destruct x as [cs|f|s]; simpl in Hx; try discriminate. simpl.
-        destruct (cdec ck s) as [v|e] eqn:E; [|exists ck, s; auto].
+        destruct (cdec ck s) as [v|e] eqn:E; [|split; [exists ck, s; auto | reflexivity]].
         repeat split; [eapply shape_custom; eauto|]. unfold rejected. rewrite (Hconc _ _ _ E). constructor.
       + destruct ds1; [|discriminate Hv]. simpl. repeat split; [apply shape_custom_out; auto|].
         unfold rejected; simpl. constructor; auto.
@@ -233,7 +238,7 @@ Definition custom_total (cdec : nat -> str -> result tmpl) : Prop := forall ck s
 Lemma decode_valid : forall cdec w t d, shallow w -> custom_concrete cdec -> valid (dna_spec w t) d = true ->
   match sdecode cdec w t d with
   | Ok v => shape cdec w t v /\ Forall (fun h => w h = false) (hypers_of v)
-  | Err e => exists ck s, cdec ck s = Err e
+  | Err e => (exists ck s, cdec ck s = Err e) /\ finite (dna_spec w t) = false
   end.
 Proof.
   intros cdec w t [ds] Hsh Hc Hv. simpl in Hv. unfold sdecode.
@@ -265,5 +270,13 @@ Lemma decode_total : forall cdec w t d, shallow w -> custom_concrete cdec -> cus
 Proof.
   intros. pose proof (decode_valid cdec w t d H H0 H2) as G.
   destruct (sdecode cdec w t d) as [v|e]; eauto.
-  destruct G as (ck & s & E). destruct (H1 ck s) as [v E']. congruence.
+  destruct G as [(ck & s & E) _]. destruct (H1 ck s) as [v E']. congruence.
+Qed.
+
+(* on a finite space (no float, no custom point) no user code is consulted *)
+Lemma decode_total_finite : forall cdec w t d, shallow w -> custom_concrete cdec -> finite (dna_spec w t) = true ->
+  valid (dna_spec w t) d = true -> exists v, sdecode cdec w t d = Ok v.
+Proof.
+  intros. pose proof (decode_valid cdec w t d H H0 H2) as G.
+  destruct (sdecode cdec w t d) as [v|e]; eauto. destruct G as [_ G]. congruence.
 Qed.
